@@ -489,7 +489,19 @@ impl Rest {
         if snapshot != self.model {
             self.violate(&["C05"], "subscription_snapshot", 0, format!("subscription snapshot {:?} differs from the contents {:?}", snapshot, self.model));
         }
-        let (outer, taps, groups) = if batched {
+        // alternate between the equivalent public ways of turning a subscriber into its parts
+        let alt = (id + self.model.len()) % 2 == 1;
+        let (outer, taps, groups) = if batched && alt {
+            let values = sub.values();
+            let raw = sub.into_batched_stream();
+            let b = build_chain::<Vec<VectorDiff<Elem>>>(values, Box::pin(raw), &spec.chain, &self.env, &cs, &mut self.limits);
+            (Outer::Batched(b.stream), b.taps, b.groups)
+        } else if !batched && alt {
+            let values = sub.values();
+            let raw = sub.into_stream();
+            let b = build_chain::<VectorDiff<Elem>>(values, Box::pin(raw), &spec.chain, &self.env, &cs, &mut self.limits);
+            (Outer::Plain(b.stream), b.taps, b.groups)
+        } else if batched {
             let (values, raw) = sub.batched().into_parts();
             let b = build_chain::<Vec<VectorDiff<Elem>>>(values, Box::pin(raw), &spec.chain, &self.env, &cs, &mut self.limits);
             (Outer::Batched(b.stream), b.taps, b.groups)
@@ -1272,6 +1284,18 @@ pub fn run_case(case: &Case) -> RunRecord {
         if !rest.failed() {
             rest.finish(&mut vec);
         }
+        // C17: turning the vector back into a plain one gives the model contents
+        let vec = match vec {
+            Some(v) if cfg.teardown % 2 == 0 && !rest.failed() => {
+                let inner = v.into_inner();
+                let got: Vec<V> = inner.iter().map(|e| e.v()).collect();
+                if got != rest.model {
+                    rest.violate(&["C17"], "into_inner_contents", -1, format!("into_inner() returned {:?}, the contents are {:?}", got, rest.model));
+                }
+                None
+            }
+            other => other,
+        };
         // teardown in a seeded order (C20)
         rest.teardown(vec, cfg.teardown);
     }));
